@@ -49,11 +49,21 @@ def transport_invariant(prog, ctx=None) -> bool:
         t = summarize(prog, f).term(n.value)
         from ..facts import strip
         cm_ok = strip(t) == ("param", f.params[1]) if len(f.params) > 1 else False
-    ok = bool(cm) and cm_ok and not other and init_none
+    # (i) the protocol LAN keeps has been through connection_made: nothing is stored in LAN._protocol on a path on which the connect fails (a
+    # protocol created up front and stored before the awaited create_connection survives a refused / timed-out connect without a transport)
+    con = prog.funcs.get("msmart.lan.LAN._connect")
+    early = False
+    if con is not None:
+        for _pc, _exc, _node, rst in summarize(prog, con).raises:
+            if f"{con.params[0]}._protocol" in rst.env:
+                early = True
+    ok = bool(cm) and cm_ok and not other and init_none and not early
     if ctx is not None:
         ctx.ob("C09.inv", proto.qual, ok, "protocol objects reachable from LAN always have a transport: only connection_made stores "
                "its transport argument, __init__ stores None, nothing else writes _transport",
-               fail="_transport may be None (or replaced) on a protocol LAN uses: `raise IOError()` in disconnect()/write() becomes reachable")
+               fail=("LAN._connect stores the protocol before the connection is established: after a failed connect LAN holds a protocol without a transport and "
+                     "the `raise IOError()` in disconnect() escapes the next send() / authenticate()") if (bool(cm) and cm_ok and not other and init_none) else
+               "_transport may be None (or replaced) on a protocol LAN uses: `raise IOError()` in disconnect()/write() becomes reachable")
     return ok
 
 
